@@ -6,16 +6,18 @@ CFG = dict(
     gen_obligations=[
         "Inst.gen_remove_spec / gen_remove_any_order: the element search regenerated from remove_edge_from_list removes the id from a list in ANY order (not only ascending lists)",
         "Inst.gen_add_spec: add_edge_to_list appends the id unless it is present",
+        "Inst.gen_ids_atomic_spec: create_edge, batch_create_edges, create_node_with_labels and batch_create_nodes reserve ids with one atomic fetch_add (premise `distinct fresh ids` of the concurrent theorem)",
     ],
     crate="nvh_c05",
     header=H + "From NV.C05 Require Import Model Run.\nOpen Scope N_scope.",
     kinds={"seq": ("seq_case", "check_seq"), "conc": ("conc_case", "check_conc"), "mixed": ("mixed_case", "check_mixed")},
     known_classes={0: "concurrent-delete-node"},
     shard=10,
-    rule="seeded sequences of create_node/create_edge (directed, undirected, self-loops, parallel)/delete_edge/delete_node/update_node/update_edge on 1-8 nodes incl. missing ids, observed through the public reads after every operation; 2-8 threads behind a barrier on a shared engine (hub creations, creations + deletions/updates of overlapping setup edges, mixes with node deletions), observed at quiescence; delete_node above the rayon threshold; kind `mixed`: a concurrent creation phase (deterministic, through the hook: the thread holding the smaller edge id is held at its first list while the other appends the larger id to the shared node's lists first, so those lists end up in NON-ascending order; plus 2/4/8-thread hub stress) followed by sequential delete_edge/delete_node with the structural oracle and the model compared after every step",
+    rule="seeded sequences of create_node/create_edge (directed, undirected, self-loops, parallel)/batch_create_edges/delete_edge/delete_node/update_node/update_edge on 1-8 nodes incl. missing ids, observed through the public reads after every operation; 2-8 threads behind a barrier on a shared engine (hub creations, creations + deletions/updates of overlapping setup edges, mixes with node deletions), observed at quiescence; batch_create_edges racing create_edge for edge ids (deterministic through the hook graph.batch_edge_ids, plus 2/4/8-thread stress; every id handed out must be unique); delete_node above the rayon threshold; kind `mixed`: a concurrent creation phase (deterministic, through the hook: the thread holding the smaller edge id is held at its first list while the other appends the larger id to the shared node's lists first, so those lists end up in NON-ascending order; plus 2/4/8-thread hub stress) followed by sequential delete_edge/delete_node with the structural oracle and the model compared after every step",
     trusted_base=COMMON_TB + [
         "modelled, not verified: the store as four association lists (node keys, out lists, in lists, edge records); one store.get/put/delete = one atomic step (metadata_slab takes the shard lock per call); with the per-key adjacency lock (commit c34d16e7) add_edge_to_list/remove_edge_from_list are single atomic steps; HashSet iteration order in delete_node is fixed to list order (the final state does not depend on it); property indexes, labels, constraints, timestamps and the legacy e* list format are outside the model",
         "guarded hook (commit 323c24cd, cfg(neumann_verif)): tensor_store::verif_hook::point(\"graph.adjacency_rmw\") between the read and the write-back of add_edge_to_list/remove_edge_from_list; the harness holds thread 1 there while thread 2 runs (deterministic schedules of C05_lost_update_refuted)",
+        "guarded hook (commit 4ad1d9d7): point graph.batch_edge_ids in batch_create_edges between reading the edge counter and reserving the id block",
         "the hardware memory model below parking_lot locks and the rayon scheduler are not modelled; the stress runs exercise them",
     ],
     assumptions=[
